@@ -77,7 +77,7 @@ def build(cfg, extra_defs="", tag=None):
         hdir = os.path.join(d, "h")
         os.makedirs(hdir, exist_ok=True)
         srcs = sorted(glob.glob(os.path.join(ROOT, "harness", "*.c")))
-        nin = [f"cflags = -std=gnu11 -O1 -g -Wall -Wno-unused-function {cflags} -D{GUARD} {extra_defs} "
+        nin = [f"cflags = -std=gnu11 -O1 -g -DNDEBUG -Wall -Wno-unused-function {cflags} -D{GUARD} {extra_defs} "
                f"-I{REPO} -I{ROOT}/harness",
                f"ldflags = {ldflags}",
                "rule cc", "  command = gcc $cflags -MMD -MF $out.d -c $in -o $out", "  depfile = $out.d",
